@@ -466,7 +466,7 @@ theorem PipeIt.nextAux_spec (h : Refines R Inv rem) (P : PipeDef α β T X S Res
     | some b => V.rows b ++ PipeIt.futRows rem V (PipeIt.nextAux R P fuel p).2 = PipeIt.futRows rem V p ∧
         (PipeIt.nextAux R P fuel p).2.agg = P.m.add p.agg (P.batchOf b)
     | none => PipeIt.futRows rem V p = [] ∧ PipeIt.futRows rem V (PipeIt.nextAux R P fuel p).2 = [] ∧
-        (PipeIt.nextAux R P fuel p).2.agg = p.agg := by
+        (PipeIt.nextAux R P fuel p).2.agg = p.agg ∧ (PipeIt.nextAux R P fuel p).2.done = true := by
   intro fuel
   induction fuel with
   | zero =>
@@ -484,7 +484,7 @@ theorem PipeIt.nextAux_spec (h : Refines R Inv rem) (P : PipeDef α β T X S Res
         | false => have := hf hpend hdd; omega
       have : PipeIt.futRows rem V p = [] := by
         simp [PipeIt.futRows, PipeIt.heldRows, hpend, hd, hp.2 hd]
-      exact ⟨hp, this, this, trivial⟩
+      exact ⟨hp, this, this, trivial, hd⟩
   | succ fuel ih =>
     intro p hp hf
     cases hpend : p.pending with
@@ -498,7 +498,7 @@ theorem PipeIt.nextAux_spec (h : Refines R Inv rem) (P : PipeDef α β T X S Res
         simp only [PipeIt.nextAux, hpend, hd, if_true]
         have : PipeIt.futRows rem V p = [] := by
           simp [PipeIt.futRows, PipeIt.heldRows, hpend, hd, hp.2 hd]
-        exact ⟨hp, this, this, trivial⟩
+        exact ⟨hp, this, this, trivial, trivial⟩
       | false =>
         have hfuel := hf hpend hd
         cases hr : rem p.src with
@@ -551,7 +551,7 @@ theorem PipeIt.next_spec (h : Refines R Inv rem) (P : PipeDef α β T X S Res)
     | some b => V.rows b ++ PipeIt.futRows rem V (PipeIt.next R P p).2 = PipeIt.futRows rem V p ∧
         (PipeIt.next R P p).2.agg = P.m.add p.agg (P.batchOf b)
     | none => PipeIt.futRows rem V p = [] ∧ PipeIt.futRows rem V (PipeIt.next R P p).2 = [] ∧
-        (PipeIt.next R P p).2.agg = p.agg :=
+        (PipeIt.next R P p).2.agg = p.agg ∧ (PipeIt.next R P p).2.done = true :=
   PipeIt.nextAux_spec h P V hc _ p hp (fun _ _ => by have := h.size_ok p.src hp.1; omega)
 
 /-- `agg_state` after feeding the outputs `bs` one by one -/
@@ -564,7 +564,8 @@ theorem pipeTakeN_spec (h : Refines R Inv rem) (P : PipeDef α β T X S Res)
     (pipeTakeN R P k p).1.flatMap V.rows ++ PipeIt.futRows rem V (pipeTakeN R P k p).2 =
       PipeIt.futRows rem V p ∧
     (pipeTakeN R P k p).2.agg = aggOf P (pipeTakeN R P k p).1 p.agg ∧
-    ((pipeTakeN R P k p).1.length < k → PipeIt.futRows rem V (pipeTakeN R P k p).2 = []) := by
+    ((pipeTakeN R P k p).1.length < k → PipeIt.futRows rem V (pipeTakeN R P k p).2 = [] ∧
+      (pipeTakeN R P k p).2.done = true) := by
   intro k
   induction k with
   | zero => intro p hp; simp [pipeTakeN, hp, aggOf]
@@ -578,8 +579,8 @@ theorem pipeTakeN_spec (h : Refines R Inv rem) (P : PipeDef α β T X S Res)
       have e2 : pipeTakeN R P (k + 1) p = ([], (PipeIt.next R P p).2) := by
         rw [pipeTakeN, e]
       rw [e2]
-      obtain ⟨h1, h2, h3, h4⟩ := hs
-      refine ⟨h1, ?_, ?_, fun _ => h3⟩
+      obtain ⟨h1, h2, h3, h4, h5⟩ := hs
+      refine ⟨h1, ?_, ?_, fun _ => ⟨h3, h5⟩⟩
       · simp [h2, h3]
       · simp [aggOf, h4]
     | some b =>
@@ -885,6 +886,146 @@ theorem chunkEmit_conserves (target : Nat) : ∀ (fuel : Nat) (rows : List ρ),
     · simp
     · simp only [List.flatten_cons, List.append_assoc]
       rw [ih, List.take_append_drop]
+
+/-! ### a drained row-wise pipeline, and a pipeline iterator as a data source (chains of runners) -/
+
+theorem flatMap_length_le (f : α → List β) (hf : ∀ a, (f a).length ≤ 1) (xs : List α) :
+    (xs.flatMap f).length ≤ xs.length := by
+  induction xs with
+  | nil => simp
+  | cons a as ih => simp only [List.flatMap_cons, List.length_append, List.length_cons]; have := hf a; omega
+
+/-- what a row-wise pipeline iterator with nothing pending will still deliver -/
+theorem futRows_rowwise (f : α → List β) (p : PipeIt R β Unit S) (hp : p.pending = []) :
+    PipeIt.futRows rem (rowViewOf f) p = (rem p.src).flatMap f := by
+  cases hd : p.done <;> simp [PipeIt.futRows, PipeIt.heldRows, hp, hd, rowViewOf]
+
+/-- Any history of a row-wise pipeline followed by a draining `take k`: the state reached. -/
+theorem PipeRun.drained (h : Refines R Inv rem) (f : α → List β) (hf : ∀ a, (f a).length ≤ 1)
+    (m : Agg.Mergeable X S Res) (batchOf : β → List X) (it : R.It) (hi : Inv it) (ops : List Op)
+    (k : Nat) (hk : ((rem it).flatMap f).length < k) :
+    ∃ r, PipeRun.run R (rowPipe f m batchOf) (rowViewOf f) (PipeRun.init R (rowPipe f m batchOf) it)
+        (ops ++ [.take k]) = .ok r ∧
+      Ev.delivered r.trace = (rem it).flatMap f ∧
+      r.p.agg = aggOf (rowPipe f m batchOf) ((rem it).flatMap f) m.empty ∧
+      PipeIt.PInv Inv rem r.p ∧ r.p.done = true := by
+  have hc := rowPipe_conserves f m batchOf
+  obtain ⟨r0, h0, g0⟩ := (PipeRun.Good.init h (rowPipe f m batchOf) (rowViewOf f) hc it hi).run h _ _ hc ops
+  have hw : RowWise1 (rowPipe f m batchOf).tr := ⟨fun _ a => hf a, fun _ => rfl⟩
+  have c0 := (PipeRun.Clean.init (ρ := β) (rowPipe f m batchOf) it).run _ (rowViewOf f) hw (fun _ => rfl) ops h0
+  obtain ⟨t1, t2, t3, t4⟩ := pipeTakeN_spec h (rowPipe f m batchOf) (rowViewOf f) hc k r0.p g0.inv
+  have hrows : ∀ bs : List β, bs.flatMap (rowViewOf f).rows = bs := flatMap_singleton
+  have hcur : Ev.delivered r0.trace ++ PipeIt.futRows rem (rowViewOf f) r0.p = (rem it).flatMap f := by
+    have := g0.cur
+    rw [c0.trace, Ev.allRows_dlv, hrows] at this
+    exact this
+  rw [hrows] at t2
+  have hlen : (pipeTakeN R (rowPipe f m batchOf) k r0.p).1.length < k := by
+    have e1 := congrArg List.length t2
+    have e2 := congrArg List.length hcur
+    simp only [List.length_append] at e1 e2
+    omega
+  obtain ⟨hnil, hdone⟩ := t4 hlen
+  rw [hnil, List.append_nil] at t2
+  refine ⟨{ r0 with p := (pipeTakeN R (rowPipe f m batchOf) k r0.p).2,
+                    trace := r0.trace ++ (pipeTakeN R (rowPipe f m batchOf) k r0.p).1.map Ev.dlv,
+                    log := r0.log ++ [(pipeTakeN R (rowPipe f m batchOf) k r0.p).1] }, ?_, ?_, ?_, t1, hdone⟩
+  · simp only [PipeRun.run, List.foldlM_append, List.foldlM_cons, List.foldlM_nil] at h0 ⊢
+    rw [h0]; rfl
+  · show Ev.delivered (r0.trace ++ (pipeTakeN R (rowPipe f m batchOf) k r0.p).1.map Ev.dlv) = _
+    rw [Ev.delivered_append, Ev.delivered_dlv, t2, hcur]
+  · show (pipeTakeN R (rowPipe f m batchOf) k r0.p).2.agg = _
+    rw [t3, g0.agg, ← hcur, t2]
+    simp [aggOf, List.foldl_append, rowPipe]
+
+/-- invariant of an upstream runner's iterator used as a data source: nothing pending, and its
+aggregation state is the aggregate of exactly the outputs it has delivered so far
+(`all` = the outputs of its uninterrupted run) -/
+def PipeIt.SrcInv (Inv : R.It → Prop) (rem : R.It → List α) (f : α → List β)
+    (m : Agg.Mergeable X S Res) (batchOf : β → List X) (all : List β) (p : PipeIt R β Unit S) : Prop :=
+  PipeIt.PInv Inv rem p ∧ p.pending = [] ∧
+    ∃ D, D ++ (rem p.src).flatMap f = all ∧ p.agg = aggOf (rowPipe f m batchOf) D m.empty
+
+/-- **A row-wise pipeline iterator refines "a cursor into its output list"** — so it can be the
+data source of another runner, to any depth. -/
+theorem pipeRec_refines (h : Refines R Inv rem) (f : α → List β) (hf : ∀ a, (f a).length ≤ 1)
+    (m : Agg.Mergeable X S Res) (batchOf : β → List X) (all : List β) :
+    Refines (pipeRec R (rowPipe f m batchOf)) (PipeIt.SrcInv Inv rem f m batchOf all)
+      (fun p => (rem p.src).flatMap f) where
+  next_nil := by
+    intro p hp hr
+    obtain ⟨hpi, hpend, D, hD, hagg⟩ := hp
+    have hs := PipeIt.next_spec h (rowPipe f m batchOf) (rowViewOf f) (rowPipe_conserves f m batchOf) p hpi
+    have hw : RowWise1 (rowPipe f m batchOf).tr := ⟨fun _ a => hf a, fun _ => rfl⟩
+    have hq : (PipeIt.next R (rowPipe f m batchOf) p).2.pending = [] :=
+      PipeIt.nextAux_pending _ hw _ p (by simp [hpend])
+    have hfut := futRows_rowwise (rem := rem) f p hpend
+    have hfut' := futRows_rowwise (rem := rem) f _ hq
+    show (PipeIt.next R (rowPipe f m batchOf) p).1 = none ∧
+      PipeIt.SrcInv Inv rem f m batchOf all (PipeIt.next R (rowPipe f m batchOf) p).2 ∧
+      (rem (PipeIt.next R (rowPipe f m batchOf) p).2.src).flatMap f = []
+    cases hn : (PipeIt.next R (rowPipe f m batchOf) p).1 with
+    | some b =>
+      rw [hn] at hs
+      have := hs.2.1
+      rw [hfut, hr] at this
+      simp [rowViewOf] at this
+    | none =>
+      rw [hn] at hs
+      obtain ⟨h1, _, h3, h4, _⟩ := hs
+      rw [hfut'] at h3
+      exact ⟨rfl, ⟨h1, hq, D, by rw [h3, ← hr]; exact hD, by rw [h4]; exact hagg⟩, h3⟩
+  next_cons := by
+    intro p b bs hp hr
+    obtain ⟨hpi, hpend, D, hD, hagg⟩ := hp
+    have hs := PipeIt.next_spec h (rowPipe f m batchOf) (rowViewOf f) (rowPipe_conserves f m batchOf) p hpi
+    have hw : RowWise1 (rowPipe f m batchOf).tr := ⟨fun _ a => hf a, fun _ => rfl⟩
+    have hq : (PipeIt.next R (rowPipe f m batchOf) p).2.pending = [] :=
+      PipeIt.nextAux_pending _ hw _ p (by simp [hpend])
+    have hfut := futRows_rowwise (rem := rem) f p hpend
+    have hfut' := futRows_rowwise (rem := rem) f _ hq
+    show (PipeIt.next R (rowPipe f m batchOf) p).1 = some b ∧
+      PipeIt.SrcInv Inv rem f m batchOf all (PipeIt.next R (rowPipe f m batchOf) p).2 ∧
+      (rem (PipeIt.next R (rowPipe f m batchOf) p).2.src).flatMap f = bs
+    cases hn : (PipeIt.next R (rowPipe f m batchOf) p).1 with
+    | none =>
+      rw [hn] at hs
+      have := hs.2.1
+      rw [hfut, hr] at this
+      cases this
+    | some b' =>
+      rw [hn] at hs
+      obtain ⟨h1, h2, h3⟩ := hs
+      rw [hfut, hfut', hr] at h2
+      have hb : b' = b ∧ (rem (PipeIt.next R (rowPipe f m batchOf) p).2.src).flatMap f = bs := by
+        simpa [rowViewOf] using h2
+      refine ⟨by rw [hb.1], ⟨h1, hq, D ++ [b], ?_, ?_⟩, hb.2⟩
+      · rw [hb.2, List.append_assoc, ← hD, hr]; rfl
+      · rw [h3, hagg, hb.1]; simp [aggOf, List.foldl_append, rowPipe]
+  restore_state := by
+    intro p hp
+    obtain ⟨hpi, hpend, D, hD, hagg⟩ := hp
+    obtain ⟨src', h1, h2, h3⟩ := h.restore_state p.src hpi.1
+    refine ⟨PipeIt.fresh R (rowPipe f m batchOf) src' p.agg, ?_, ⟨⟨h2, fun hd => by simp [PipeIt.fresh] at hd⟩, rfl, D, ?_, hagg⟩, ?_⟩
+    · show PipeIt.restore R (rowPipe f m batchOf) (PipeIt.state R p) = _
+      simp only [PipeIt.restore, PipeIt.state, h1, bind, Except.bind, pure, Except.pure]
+      rfl
+    · show D ++ (rem src').flatMap f = all
+      rw [h3]; exact hD
+    · show (rem src').flatMap f = (rem p.src).flatMap f
+      rw [h3]
+  size_ok := by
+    intro p hp
+    show ((rem p.src).flatMap f).length ≤ R.size p.src + p.pending.length
+    have := flatMap_length_le f hf (rem p.src)
+    have := h.size_ok p.src hp.1.1
+    omega
+
+theorem PipeIt.SrcInv.fresh (f : α → List β) (m : Agg.Mergeable X S Res) (batchOf : β → List X)
+    (it : R.It) (hi : Inv it) :
+    PipeIt.SrcInv Inv rem f m batchOf ((rem it).flatMap f) (PipeIt.fresh R (rowPipe f m batchOf) it m.empty) :=
+  ⟨⟨hi, fun hd => by simp [PipeIt.fresh] at hd⟩, rfl, [], by simp [PipeIt.fresh], by simp [PipeIt.fresh, aggOf]⟩
+
 
 end pipe
 
